@@ -1115,6 +1115,11 @@ def env_cases(r, nfonts, per_font=3, nenv=3):
     return cases
 
 
+def canon_env(s):
+    """the advances after ` A ` are for the search oracle only (the model has no positions)"""
+    return canon(s.split(" A ")[0])
+
+
 def classify_env(ln, out):
     t = ln.split(); i = t.index("I")
     ks = ["env:" + t[i + 1].split("/")[0], "dir:" + t[i + 2], "level:" + t[i + 3]]
@@ -1158,32 +1163,47 @@ def pairs_of(field):
 
 def purge_search(ctx, shim, lines):
     """oracle on the crate alone: hb_aat_layout_remove_deleted_glyphs keeps exactly the records whose glyph is not
-    0xFFFF, in order, and every cluster value that comes out went in"""
+    0xFFFF, in order, and every cluster value that comes out went in; at the merging levels 0 / 1, for a string whose
+    clusters do not decrease: the clusters that come out do not decrease either, no record gets a larger cluster than
+    it had, and the smallest cluster value survives when anything does"""
     outs = vlib.run_lines(shim, lines)
     bad = nontriv = 0
     for ln, x in zip(lines, outs):
         inp = pairs_of(ln.split()[3])
+        level = int(ln.split()[2])
         if any(g == DELETED for g, _ in inp): nontriv += 1
         got = pairs_of(x.split()[1]) if x.startswith("ok") else None
         want = [g for g, _ in inp if g != DELETED]
-        if got is None or [g for g, _ in got] != want or not {c for _, c in got} <= {c for _, c in inp}:
+        why = None
+        if got is None or [g for g, _ in got] != want: why = f"expected the glyphs {want}"
+        elif not {c for _, c in got} <= {c for _, c in inp}: why = "a cluster value that was not in the input"
+        elif level != 2 and got and all(a[1] <= b[1] for a, b in zip(inp, inp[1:])):
+            kept = [c for g, c in inp if g != DELETED]
+            if any(a[1] > b[1] for a, b in zip(got, got[1:])): why = "clusters no longer monotone"
+            elif any(c > k for (_, c), k in zip(got, kept)): why = "a record got a larger cluster than it had"
+            elif min(c for _, c in got) != min(c for _, c in inp): why = "the smallest cluster value was lost"
+        if why:
             bad += 1
             if bad <= 1:
-                ctx.violation(f"hb_aat_layout_remove_deleted_glyphs on {ln.split()[3]} (level {ln.split()[2]}) gives {x}; "
-                              f"expected the glyphs {want}", {"stage": "search", "stream": "morx-purge", "request": ln,
-                              "expected": want, "observed": x[:300]})
+                ctx.violation(f"hb_aat_layout_remove_deleted_glyphs on {ln.split()[3]} (level {level}) gives {x}: {why}",
+                              {"stage": "search", "stream": "morx-purge", "request": ln, "expected": want, "why": why,
+                               "observed": x[:300]})
     ctx.note_search("morx-purge", len(lines), nontriv, mismatches=bad,
                     rule="glyph strings <= 10 (half of the records deleted glyphs; ascending / repeated / descending / random "
                          "clusters) x 3 levels through the purge hook: the glyph ids that come out are exactly the non-deleted "
-                         "ones in order, no new cluster value; non-trivial = something was deleted")
+                         "ones in order, no new cluster value; levels 0 / 1 on non-decreasing clusters: still non-decreasing, no "
+                         "record's cluster grows, the minimum survives; non-trivial = something was deleted")
 
 
 def env_search(ctx, shim, cases):
-    """oracles on the crate alone, over the same requests as the morx-shape-env correspondence:
+    """oracles on the crate alone, over the same requests as the morx-shape-env correspondence.  Whether morx substitutes is
+    decided here from the request (horizontal text, or no GSUB table: harfbuzz#2124), not read from the crate's plan:
     (1) no glyph 0xFFFF in the output of shape();
-    (2) whenever the plan applies morx, the glyph ids of shape() are the glyph ids of hb_aat_layout_substitute (hook, on the
-        bare morx font) without the deleted glyphs, reversed for right-to-left text;
-    (3) the glyph ids do not depend on the environment (same plan.apply_morx)."""
+    (2) if morx substitutes, the glyph ids of shape() are the glyph ids of hb_aat_layout_substitute (hook, on the bare morx
+        font) without the deleted glyphs, reversed for right-to-left text; if GSUB does (vertical text, GSUB present), they
+        are the input glyphs through the font's single substitution;
+    (3) the glyph ids do not depend on the environment (same substituting table);
+    (4) on the bare morx font (nothing positions) every horizontal advance is the hmtx advance of the glyph it belongs to."""
     reqs = [c[0] for c in cases]
     hooks = sorted({c[1] for c in cases})
     a = vlib.run_lines(shim, reqs, timeout=300)
@@ -1203,21 +1223,28 @@ def env_search(ctx, shim, cases):
         o = x.split()
         got = pairs_of(o[1]); plan = o[3]
         gids = [g for g, _ in got]
+        exp_morx = m["dir"] in "lr" or m["env"]["gsub"] == 0
         if m["base"]:
-            base[m["group"]] = (gids, plan[0])
+            base[m["group"]] = gids
         dist["plan:" + plan] = dist.get("plan:" + plan, 0) + 1
         want = None
-        if plan[0] == "1" and y.startswith("ok"):
+        if exp_morx and y.startswith("ok"):
             hooked = gids_of(y.split()[3])
             want = [g for g in hooked if g != DELETED]
             if m["dir"] == "r": want = want[::-1]
             if DELETED in hooked:
                 nontriv += 1
                 dist["deleted-in:" + name] = dist.get("deleted-in:" + name, 0) + 1
+        elif not exp_morx:
+            want = [m["env"]["gsub_map"].get(g, g) for g in m["glyphs"]]
+            if m["dir"] == "b": want = want[::-1]
         key = None
         if DELETED in gids: key = "deleted-glyph-in-output"
-        elif want is not None and gids != want: key = "differs-from-substitute-hook"
-        elif m["group"] in base and base[m["group"]][1] == plan[0] and base[m["group"]][0] != gids: key = "depends-on-environment"
+        elif want is not None and gids != want: key = "differs-from-substitute-hook" if exp_morx else "differs-from-gsub"
+        elif exp_morx and m["group"] in base and base[m["group"]] != gids: key = "depends-on-environment"
+        elif m["base"] and m["dir"] in "lr" and len(o) > 5 and o[5] != "-" and \
+                [int(v) for v in o[5].split(",")] != [500 + 10 * g if g < NG else None for g in gids]:
+            key = "advance-not-of-its-glyph"
         if key:
             found.setdefault(key, []).append((len(m["glyphs"]) * 100 + len(name), ln, m, x, y, want, hk))
     for key, lst in sorted(found.items()):
@@ -1225,7 +1252,7 @@ def env_search(ctx, shim, cases):
         _, ln, m, x, y, want, hk = lst[0]
         envs = sorted({env_name(t[2]["env"]) for t in lst})
         ctx.violation(f"shape() on a font with {env_name(m['env'])}: {key} — glyphs {m['glyphs']} clusters {m['clusters']} "
-                      f"dir {m['dir']} level {m['level']} features {m['features']} -> {x.split(' P ')[0][:200]}"
+                      f"dir {m['dir']} level {m['level']} features {m['features']} -> {x[:200]}"
                       + (f", expected the glyph ids {want}" if want is not None else "")
                       + f" ({len(lst)} requests; environments: {', '.join(envs[:8])})",
                       {"stage": "search", "stream": "morx-shape-env", "class": key, "environment": env_name(m["env"]),
@@ -1241,7 +1268,8 @@ def env_search(ctx, shim, cases):
                          "GPOS (none / no features / kern pairs / mark-feature adjustment) x kerx x kern x GDEF; strings <= 8 over "
                          "the PUA alphabet, 4 directions, 3 levels, ascending / gapped / repeated clusters, 0-2 user features on "
                          "fonts with feat; oracles: no 0xFFFF in the output, glyph ids = substitute hook minus deleted glyphs "
-                         "(when the plan applies morx), glyph ids independent of the environment; non-trivial = the hook "
+                         "(horizontal text or no GSUB; else = input through the GSUB substitution), glyph ids independent of the "
+                         "environment, on the bare font every advance is the hmtx advance of its glyph; non-trivial = the hook "
                          "result contains a deleted glyph")
 
 def run(ctx):
@@ -1274,8 +1302,8 @@ def run(ctx):
     envc = env_cases(ctx.rng("shape-env"), ctx.budget(220, 6000))
     # (fonts with an insertion subtable go to the search only: with the budget of shape() - max_ops >= 16384, which a request
     # cannot lower - the model's insertion loop takes minutes on tables that spend the budget, see run_lines)
-    ctx.correspond("morx-shape-env", lines=[c[0] for c in envc if not c[2]["insertion"]], classify=classify_env, canon=canon,
-                   timeout=300)
+    ctx.correspond("morx-shape-env", lines=[c[0] for c in envc if not c[2]["insertion"]], classify=classify_env,
+                   canon=canon_env, timeout=300)
     # search
     purge_search(ctx, shim, pl)
     env_search(ctx, shim, envc)
